@@ -57,7 +57,9 @@ RULE = ("case 0: exhaustive bends() over offsets {-2..2}^2 minus origin x 4 x 4 
         "it made at least one call; every scene (thorough: every 2nd, graphs up to 400 vertices) also carries libavoid's raw "
         "orthogonal visibility graph (points, flags, isConnPt, orthogVisList in list order with getDist) on which the Lean A* "
         "model is run: route() must equal the model's route exactly (equal as-coded cost suffices only where a vertex has two "
-        "edges in one direction); class astar-kernels: cost() on random point triples (orthogonal connector, penalties "
+        "edges in one direction to different points), and the sequence of nodes the real search pops (library DebugHandler tap: "
+        "vertex + previous vertex of every bestNode) must equal the model's DONE list; with the optional hook "
+        "harness/c05_astar_hook.patch also g, exploredCount, PENDING.size() and the timestamp counter at the goal; class astar-kernels: cost() on random point triples (orthogonal connector, penalties "
         "0/0.75/2.5/10/50/200, reverseDirectionPenalty) and ANodeCmp on (f, timeStamp) pairs around 1e-7, called directly")
 TRUSTED_BASE = ["Lean 4.33 kernel", "axioms: propext, Classical.choice, Quot.sound",
                 "cpp2lean translator + clang AST (bends(), direction helpers, estimatedCostSpecific, ANodeCmp, orthogTurnOrder, Dot, CrossLength regenerated each run, bridge lemmas to the model; cross-checked by the correspondence)",
